@@ -249,8 +249,30 @@ class Gen:
         return self.leaf(dtype, shape)
 
     # elementwise
+    TWIN_OPS = ('insertaxis', 'inflate', 'transpose', 'diagonalize', 'take', 'ravel', 'unravel', 'loopsum', 'get', 'cast')
+
+    def twin(self, idx, depth):
+        """a second operand with the same outer structure (operator and parameters) as node idx but fresh sub-operands:
+        binary rules (unalign, _inflate merging, Einsum absorption, ...) only fire when both operands are structured alike"""
+        n = self.nodes[idx]
+        if n['op'] not in self.TWIN_OPS or n['op'] in ('loopsum',):
+            return None
+        ch = []
+        for c in n['ch']:
+            cn = self.nodes[c]
+            if cn['op'] in ('idxarg', 'loopidx'):
+                ch.append(c)
+            else:
+                ch.append(self.gen(cn['t'][0], cn['t'][1], depth, n['op']))
+        return self.emit(n['op'], ch, dict(n['p']), n['t'][0], n['t'][1])
+
     def _nary(self, op, dtype, shape, depth, n=2, dtypes=None):
-        ch = [self.gen((dtypes[i] if dtypes else dtype), shape, depth, op) for i in range(n)]
+        ch = [self.gen((dtypes[0] if dtypes else dtype), shape, depth, op)]
+        for i in range(1, n):
+            t = None
+            if dtypes is None and self.boolean(0.3) and self.free[ch[0]] <= set(self.active):
+                t = self.twin(ch[0], depth)
+            ch.append(t if t is not None else self.gen((dtypes[i] if dtypes else dtype), shape, depth, op))
         return self.emit(op, ch, {}, dtype, shape)
 
     def g_add(self, dtype, shape, depth): return self._nary('add', dtype, shape, depth)
@@ -503,8 +525,11 @@ class Gen:
         k = self.integers(0, len(shape))
         n = self.length()
         cs = shape[:k] + [n] + shape[k:]
-        ch = [self.gen(dtype, cs, depth, 'mul') for _ in range(2)]
-        return self.emit('dot', ch, dict(axis=k), dtype, shape)
+        a = self.gen(dtype, cs, depth, 'mul')
+        b = self.twin(a, depth) if self.boolean(0.35) and self.free[a] <= set(self.active) else None
+        if b is None:
+            b = self.gen(dtype, cs, depth, 'mul')
+        return self.emit('dot', [a, b], dict(axis=k), dtype, shape)
 
     def g_polyval(self, dtype, shape, depth):
         if len(shape) > 3: return None
